@@ -422,7 +422,7 @@ func (n *Normer) ReachCond(fn *ssa.Function, from, target *ssa.BasicBlock) *Cond
 		if b == from {
 			// a bottom-tested counting loop: its continue condition holds for the current value of
 			// the loop variable at the top of every iteration (what a header test states directly)
-			if w := n.LoopWhile(b); w != nil {
+			if w := n.LoopWhile(b); w != nil && !n.bodyFrom[b] {
 				return w
 			}
 			return cTrue
@@ -442,9 +442,6 @@ func (n *Normer) ReachCond(fn *ssa.Function, from, target *ssa.BasicBlock) *Cond
 			res = cOr(res, cAnd(cond(p), n.EdgeCond(p, b)))
 		}
 		visiting[b] = false
-		if w := n.LoopWhile(b); w != nil {
-			res = cAnd(res, w)
-		}
 		memo[b] = res
 		return res
 	}
